@@ -188,6 +188,9 @@ func Render(prog *Program, withDriver bool) map[string]string {
 	for _, s := range prog.ExtraSets {
 		r.visitSet(s, true)
 	}
+	for _, p := range prog.InjectorImports {
+		r.addPkg(p)
+	}
 	// import aliases: package name unless it clashes
 	used := map[string]int{}
 	for _, p := range r.pkgs {
@@ -200,6 +203,15 @@ func Render(prog *Program, withDriver bool) map[string]string {
 	}
 	out := map[string]string{}
 	for _, p := range r.pkgs {
+		raw := false
+		for _, q := range prog.InjectorImports {
+			if q == p {
+				raw = true // declared by prog.ExtraFiles
+			}
+		}
+		if raw {
+			continue
+		}
 		f := &file{pkg: p, imports: map[string]string{}, r: r}
 		r.renderDefs(f)
 		out[join(p.Rel, "defs.go")] = f.render("")
@@ -228,6 +240,9 @@ func Render(prog *Program, withDriver bool) map[string]string {
 		f := &file{pkg: prog.Root, imports: map[string]string{}, r: r}
 		r.renderDriver(f)
 		out["driver.go"] = f.render("")
+	}
+	for p, c := range prog.ExtraFiles {
+		out[p] = c
 	}
 	return out
 }
@@ -616,6 +631,12 @@ func (r *renderer) renderInjector(f *file, inj *Injector) {
 		f.p("%s\n", inj.Doc)
 	}
 	f.p("func %s(%s) %s {\n\tpanic(%sBuild(%s))\n}\n\n", inj.Name, ps, res, f.wire(), r.itemsExpr(f, inj.Items))
+	if inj.After != "" {
+		for _, p := range r.prog.InjectorImports {
+			f.q(p)
+		}
+		f.p("%s\n\n", inj.After)
+	}
 }
 
 func (r *renderer) renderDriver(f *file) {
